@@ -95,6 +95,12 @@ CHECKS = {
    text="The partition, info-accumulation, ranking and lookup relations are TLC invariants over four exhaustively explored bounded models; every observable state after every call of every replayed behaviour - including all get_by_cpuset answers for every subset - is judged by the specification alone.",
    design_ref="DESIGN.md section 6, C15",
    note="Trusted: TLC, Json module, recorder projection. Bounds: <= 4 PUs and <= 4 registrations exhaustively, 8 atoms at depth 8 sampled. Last-wins reading of forced efficiencies; restrict by cpuset with flags 0 only; ENOMEM not explored; HWLOC_CPUKINDS_RANKING unset."),
+ "C17": dict(
+   technique="TLA+ protocol model of the shared state consulting calls may touch (spec/Concurrency.tla: distances and memattr caches, environment caches, the reference-counted components registry and its mutex) model-checked exhaustively by TLC with the documented discipline (NoReaderWrite, NoRace, RegistryOK invariants) and without it (TLC must find the reader write); binding through HWLOC_VERIF hook events recorded by harness/hwv_threads.c (consulting battery on a shmem-adopted read-only copy, 2-16 reader threads after load and after modify+refresh, 2-12 threads with independent topology histories) and validated by TLC against spec/TraceConcurrency.tla",
+   category="model_checking",
+   text="The protocol is decided exhaustively on the model; on the real library every reader phase is checked for the absence of any hooked write (including in the first single-threaded run) and for digest equality of everything the consulting API reports with the single-threaded run, the adopted PROT_READ copy turns any write to topology memory by a consulting call into a crash, and the registry events emitted under the components mutex are replayed against RegInit/RegFini. Real schedules are sampled, not enumerated: that part is exploration.",
+   design_ref="DESIGN.md section 6, C17",
+   note="Trusted: TLC, the four guarded hooks (add-only, HWLOC_VERIF), the digest battery. Race-freedom is decided only for the shared state the model names plus all topology memory (through the read-only mapping); no ThreadSanitizer verdict is used."),
 }
 NA_REASON = {}
 
@@ -124,7 +130,7 @@ def main():
             "guard": "HWLOC_VERIF",
             "enable": "tools/build.sh compiles /repo/hwloc/*.c from the current working tree with -DHWLOC_VERIF (and ASan+UBSan) into a scratch static archive; nothing is built inside /repo",
             "baseline_off_cmd": "cd /repo && export PATH=$PATH:/root/miniconda/bin && make -j8 >/dev/null && make -k check -j8",
-            "source_commits": [],
+            "source_commits": ["d57d9f5", "d82b109", "21d6044", "5a9a579"],
             "add_only": True,
         },
         "engines": [
